@@ -530,8 +530,8 @@ Inductive dos_answer :=
 Definition get_ns_name (default_ns name : string) : string :=
   if contains_slash name then name else ns_name default_ns name.
 
-Definition get_valid_dos_ex (st : dstate) (parent_ns ns_nm : string) : dos_answer :=
-  let key := get_ns_name parent_ns ns_nm in
+(* the body of GetValidDosEx once the key is computed *)
+Definition dos_ex_by_key (st : dstate) (key : string) : dos_answer :=
   if negb (d_enabled st) then DDisabled
   else match lookup key (dprs st) with
        | None => DNotFound
@@ -556,6 +556,9 @@ Definition get_valid_dos_ex (st : dstate) (parent_ns ns_nm : string) : dos_answe
                  end
              end
        end.
+
+Definition get_valid_dos_ex (st : dstate) (parent_ns ns_nm : string) : dos_answer :=
+  dos_ex_by_key st (get_ns_name parent_ns ns_nm).
 
 (* ------------------------------------------------------------------------------------------ *)
 (* The combined machine                                                                          *)
